@@ -26,7 +26,7 @@ static inline Timeout sym_timeout()
 }
 template<int ME> static inline __attribute__((always_inline)) void waiter()
 {
-#ifdef SCEN2W   // two queued waiters with fixed demands [2, 1]; only the head's deadline is symbolic (never / finite)
+#if defined(SCEN2W) || defined(GHOST_FIXED)   // two queued waiters with fixed demands [2, 1]; only the head's deadline is symbolic (never / finite)
     uint8_t m = ME == 0 ? 2 : 1;
     Timeout t = (ME == 0 && nondet_bool()) ? Timeout(100) : Timeout();
 #else
@@ -64,13 +64,17 @@ static inline void ghost_wait(uint64_t d)
 template<int ME> static inline __attribute__((always_inline)) void signaller()
 {
 #ifdef GHOST_WAITER
+#ifdef GHOST_FIXED
+    ghost_wait(1);
+#else
     { uint8_t d = nondet_u8(); ASSUME(d >= 1 && d <= 2); if (nondet_bool()) ghost_wait(d); }
+#endif
 #endif
     for (int k = 0; k < NSIG; k++) {
         uint8_t n = nondet_u8(); ASSUME(n <= 2);
         signalled += n;
         S.v.signal(n);
-#if defined(SCEN2W) || defined(GHOST_WAITER)   // the signaller may take a token itself right away (a newcomer that overtakes the woken waiter)
+#if (defined(SCEN2W) || defined(GHOST_WAITER)) && !defined(NO_BARGE)   // the signaller may take a token itself right away (a newcomer that overtakes the woken waiter)
         if (nondet_bool()) { int r = S.v.wait_interruptible(1, Timeout(0)); if (r == 0) taken += 1; }
 #endif
 #if NSIG > 1
@@ -94,7 +98,7 @@ void thread_entry_2() { thread_interrupt(K_thread(0), EINTR); }
 #endif
 NOINL void world_init()
 {
-#ifdef SCEN2W
+#if defined(SCEN2W) || defined(GHOST_FIXED)
     uint8_t c = 0;
 #else
     uint8_t c = nondet_u8(); ASSUME(c <= 2);
@@ -107,6 +111,13 @@ NOINL void world_final(uint32_t all_done, uint32_t stuck)
     uint64_t cnt = S.v.count();
     if (all_done) {
         CHECK(initial + signalled == cnt + taken, "tokens conserved: initial + signalled == remaining + taken by successful waits");
+#ifdef GHOST_WAITER
+        if (ghost_queued && K_is_blocked(KN - 1)) {     // the constructed waiter never runs: it may legitimately still be queued, but then only uncovered
+            CHECK(S.v.q.th == K_thread(KN - 1) && K_thread(KN - 1)->single(), "quiescence: only the constructed waiter is left in the queue");
+            CHECK(cnt < ghost_demand, "no lost wake-up: the remaining waiter is blocked only while the count does not cover its demand");
+            WITNESS("quiescence with the constructed waiter still queued");
+        } else
+#endif
         CHECK(S.v.q.th == nullptr, "quiescence: wait queue empty");
         if (wret[0] == 0) WITNESS("waiter 0 obtained its tokens");
         if (wret[0] == -1 && werr[0] == ETIMEDOUT) WITNESS("waiter 0 timed out");
